@@ -316,3 +316,37 @@ def declare3(S: Spec):
                           "self.avail_ram_pool + Sum(self.active_containers, 'ramC') + Sum(self.suspending_containers, 'ramC')"
                           " - Sum(drop(to_remove, k), 'ramC') == self.max_ram_pool"]),
          })
+
+
+def declare4(S: Spec):
+    S.fn(f"{MR}:ResourcePool.__init__", owners=["C03", "C04"],
+         params={"pool_id": INT, "cpu_pool": REAL, "ram_pool": REAL, "ticks_per_second": INT,
+                 "multi_operator_containers": BOOL, "allow_memory_overcommit": BOOL},
+         requires=["cpu_pool >= 0 and ram_pool >= 0 and ticks_per_second >= 1", "GI1()"],
+         ensures=[("fields", "self.pool_id == pool_id and self.max_cpu_pool == cpu_pool and self.max_ram_pool == ram_pool"
+                             " and self.ticks_per_second == ticks_per_second and self.allow_memory_overcommit == allow_memory_overcommit"
+                             " and self.multi_operator_containers == multi_operator_containers"),
+                  ("starts-empty", "len(self.active_containers) == 0 and len(self.suspending_containers) == 0 and len(self.suspended_containers) == 0"
+                                   " and self.num_completed == 0 and len(self.container_tick_times) == 0"),
+                  ("C03| conserved-initially", "Conserved(self) and self.avail_cpu_pool == cpu_pool and self.avail_ram_pool == ram_pool"),
+                  ("C04| no-usage-initially", "self.consumed_ram_gb == 0"),
+                  ("invariant-established", "PoolInv(self) and IdsOK(seq(self.active_containers))")],
+         modifies=[], allocates=True)
+
+    # the executor only routes: its clauses are about which pool a command reaches; what a pool does with its
+    # commands is ResourcePool.run_one_tick's contract (treated as 'may do anything' in this proof)
+    S.fn(f"{ME}:Executor.run_one_tick", owners=["C09"],
+         params={"suspensions": List(Ref("Suspend")), "assignments": List(Ref("Assignment"))},
+         returns=List(Ref("ExecutionResult")),
+         requires=["suspensions is not None and assignments is not None", "self.pools is not None and self.num_pools == len(self.pools)"],
+         ensures=[("no-command-dropped", "all(0 <= a.pool_id and a.pool_id < self.num_pools for a in old(seq(assignments)))"
+                                         " and all(0 <= s.pool_id and s.pool_id < self.num_pools for s in old(seq(suspensions)))")],
+         raises={"AssertionError": [], "Exception": []},
+         modifies=["star('*')"],
+         weak_calls=[f"{MR}:ResourcePool.run_one_tick"],
+         locals={"results": List(Ref("ExecutionResult"))},
+         loops={0: dict(idx="k", header="for s in suspensions",
+                        inv=["all(0 <= suspensions[j].pool_id and suspensions[j].pool_id < self.num_pools for j in range(0, k))"]),
+                1: dict(idx="k", header="for a in assignments",
+                        inv=["all(0 <= assignments[j].pool_id and assignments[j].pool_id < self.num_pools for j in range(0, k))"]),
+                2: dict(idx="k", header="for id_ in range(self.num_pools)", inv=[])})
